@@ -206,7 +206,7 @@ pub fn gen_replay(seed: u64, focus_arg: &str) -> Replay {
         policies.push(Policy::High);
     }
     let policy = *rng.pick(&policies);
-    let alloc = AllocCfg { policy, seed: rng.next(), exhaust_after: if rng.chance(10) { Some(rng.below(8) as u32) } else { None } };
+    let alloc = AllocCfg { policy, seed: rng.next(), exhaust_after: if rng.chance(10) { Some(rng.below(8) as u32) } else { None }, frame0_first: rng.chance(20) };
     let p4_frame = {
         let z = zones.pick_table_zone(&mut rng, limit >> 30);
         (z << 30) + ((1 << 17) + rng.below(1 << 17) << 12)
@@ -216,9 +216,10 @@ pub fn gen_replay(seed: u64, focus_arg: &str) -> Replay {
     let rnd_pcid = rng.below(4096) as u16;
     let cr3_low: u16 = if pcide { *rng.pick(&[0u16, 1, 5, 0x18, 0x7ff, 0xfff, rnd_pcid]) } else { *rng.pick(&[0u16, 0, 0x8, 0x10, 0x18]) };
     let zero_data = rng.chance(25);
+    let even_garbage = rng.chance(15);
     let enumerate_faults = focus == "C02" || rng.chance(30);
     let enumerate_ranges = if focus == "C10" { rng.chance(50) } else { rng.chance(4) };
-    let config = Config { view, alloc, garbage_seed: rng.next(), p4_frame, zone_seed: zones.seed, cr3_low, pcide, enumerate_faults, enumerate_ranges, tlb, zero_data };
+    let config = Config { view, alloc, garbage_seed: rng.next(), p4_frame, zone_seed: zones.seed, cr3_low, pcide, enumerate_faults, enumerate_ranges, tlb, zero_data, even_garbage };
 
     let len = match rng.below(100) {
         0..=49 => rng.range(3, 12),
@@ -315,8 +316,8 @@ pub fn gen_replay(seed: u64, focus_arg: &str) -> Replay {
                     let span = *g.rng.pick(&[1u64 << 21, 1 << 30, 1 << 39]);
                     let base = a & !(span - 1);
                     let lin = base & 0x0000_ffff_ffff_ffff;
-                    let s = canon(lin.wrapping_add((g.rng.below(3) as i64 - 1) as u64 * 4096));
-                    let e = canon(lin.wrapping_add(span - 4096).wrapping_add((g.rng.below(3) as i64 - 1) as u64 * 4096));
+                    let s = canon(lin.wrapping_add(((g.rng.below(3) as i64 - 1) as u64).wrapping_mul(4096)));
+                    let e = canon(lin.wrapping_add(span - 4096).wrapping_add(((g.rng.below(3) as i64 - 1) as u64).wrapping_mul(4096)));
                     (s & !0xfff, e & !0xfff)
                 } else {
                     let b = g.page(Size::K4);
